@@ -8,9 +8,9 @@ EXTENDS DmxGraphOps, Json
 CONSTANTS MaxKids, MaxLeaves
 
 VARIABLES t, act
-Names == {"a", "A", "b", "name", "subkeys"}     \* a/A collide after folding; two reserved names
-Fold == [a |-> "a", A |-> "a", b |-> "b", name |-> "name", subkeys |-> "subkeys"]
-ValOf == [a |-> "1", A |-> "2", b |-> "3", name |-> "4", subkeys |-> "5"]
+Names == {"a", "A", "b", "name", "Name", "subkeys"}     \* a/A collide after folding; two reserved names
+Fold == [a |-> "a", A |-> "a", b |-> "b", name |-> "name", Name |-> "name", subkeys |-> "subkeys"]
+ValOf == [a |-> "1", A |-> "2", b |-> "3", name |-> "4", Name |-> "6", subkeys |-> "5"]
 SeqsUpTo(S, k) == UNION {[1..m -> S] : m \in 0..k}
 Leaves == {[n |-> n, leaf |-> TRUE, val |-> ValOf[n], ch |-> <<>>, root |-> FALSE] : n \in Names}
 Blocks1 == {[n |-> n, leaf |-> FALSE, val |-> "", ch |-> s, root |-> FALSE] :
